@@ -50,7 +50,8 @@ fn model_text(rng: &mut StdRng) -> (String, Vec<(String, Vec<(String, &'static s
     // returns the text and (entity, [(field, type)])
     let mut ents = Vec::new();
     let mut used = std::collections::HashSet::new();
-    let mut text = String::from("{\n  Probe{ n:Integer nullable }\n");
+    let mut text = String::from("{\n  Probe{ n:Integer nullable, s:String nullable }\n");
+    text.push_str(&format!("  Wide{{ {} }}\n", (0..70).map(|i| format!("c{}:Integer nullable", i)).collect::<Vec<_>>().join(", ")));
     for _ in 0..rng.gen_range(2..5) {
         let name = loop {
             let n = if rng.gen_bool(0.6) { KEYWORDS[rng.gen_range(0..KEYWORDS.len())] } else { ODD[rng.gen_range(0..ODD.len())] };
@@ -196,7 +197,7 @@ async fn session(tier: Tier, seed: u64, case: u64, dir: std::path::PathBuf) -> A
     let mut acc = Acc::default();
     let mut rng = StdRng::seed_from_u64(seed);
     let (model, ents) = model_text(&mut rng);
-    let peer = match Peer::start("p", seed, 0, "{ Probe{ n:Integer nullable } }", &dir.join("p"), small_config()).await {
+    let peer = match Peer::start("p", seed, 0, "{ Probe{ n:Integer nullable, s:String nullable } }", &dir.join("p"), small_config()).await {
         Ok(p) => p,
         Err(e) => {
             acc.inconclusive(e);
@@ -607,8 +608,15 @@ async fn session(tier: Tier, seed: u64, case: u64, dir: std::path::PathBuf) -> A
     // (i) extreme requests
     for _ in 0..tier.pick(4, 10) {
         let pb = panics();
-        let v = rng.gen_range(0..15);
+        let v = rng.gen_range(0..20);
+        // requests of this family that are valid for the language and the model: any error is a finding
+        let must_succeed = matches!(v, 15 | 16 | 18 | 19);
         let (what, text): (&str, String) = match v {
+            15 => ("literal-ending-with-an-escaped-backslash", "mutate { Probe{ s:\"C:\\\\\" } }".to_string()),
+            16 => ("braces-in-a-literal-after-a-literal-ending-with-an-escaped-backslash", format!("query {{ Probe(s = \"C:\\\\\", s != \"{}\"){{ n }} }}", "{".repeat(20))),
+            17 => ("deep-nesting-after-a-literal-ending-with-an-escaped-backslash", format!("mutate {{ Probe{{ s:\"C:\\\\\" {} n:1 {} }} }}", "a:{ ".repeat(20000), "} ".repeat(20000))),
+            18 => ("selection-of-40-fields", format!("query {{ Wide{{ {} }} }}", (0..40).map(|i| format!("c{}", i)).collect::<Vec<_>>().join(" "))),
+            19 => ("selection-of-70-fields", format!("query {{ Wide{{ {} }} }}", (0..70).map(|i| format!("c{}", i)).collect::<Vec<_>>().join(" "))),
             0 => ("deeply-nested-braces", format!("query {{ Probe{} n {} }}", "{".repeat(20000), "}".repeat(20000))),
             1 => ("deeply-nested-filter-json", format!("mutate {{ Probe{{ n: {}1{} }} }}", "[".repeat(20000), "]".repeat(20000))),
             2 => ("integer-literal-overflow", "mutate { Probe{ n: 99999999999999999999999999 } }".to_string()),
@@ -627,11 +635,17 @@ async fn session(tier: Tier, seed: u64, case: u64, dir: std::path::PathBuf) -> A
         };
         eprintln!("INPUT extreme-request/{}", what);
         let r = tokio::time::timeout(scaled(60_000), async {
-            if text.starts_with("mutate") { peer.mutate(&text, None).await.is_ok() } else if text.starts_with("query") { peer.query(&text, None).await.is_ok() } else { peer.db.update_data_model(&text).await.is_ok() }
+            if text.starts_with("mutate") { peer.mutate(&text, None).await.map(|_| ()) } else if text.starts_with("query") { peer.query(&text, None).await.map(|_| ()) } else { peer.db.update_data_model(&text).await.map(|_| ()).map_err(|e| e.to_string()) }
         })
         .await;
-        history.push(json!({"kind": "extreme-request", "what": what, "outcome": format!("{:?}", r)}));
-        acc.distinct("extreme", format!("{} -> {:?}", what, r));
+        history.push(json!({"kind": "extreme-request", "what": what, "outcome": format!("{:?}", r.as_ref().map(|x| x.as_ref().map_err(|e| e.chars().take(80).collect::<String>())))}));
+        if must_succeed {
+            if let Ok(Err(e)) = &r {
+                let class = if is_engine_error(e) || e.contains("too many arguments") { "rejected-by-the-engine" } else if e.contains("nested too deeply") { "refused-by-the-nesting-limit" } else { "refused" };
+                acc.violation(format!("C14/valid-request-{}/{}", class, what), json!({"request": text.chars().take(300).collect::<String>(), "error": e.chars().take(300).collect::<String>()}));
+            }
+        }
+        acc.distinct("extreme", format!("{} -> {:?}", what, r.as_ref().map(|x| x.is_ok())));
         if r.is_err() {
             acc.count(&format!("call_exceeded_its_allowance/extreme-request-{}", what), 1);
         }
